@@ -39,6 +39,15 @@ def first_letter_guarded(ctx, g):
         n += 1
         ln = ("call", "fpgroups::free_words::FreeWord::len", (a[0],))
         fa = [atom_norm(x, g) for x in b.facts_at(bi)]
+        # rotations and inverses have the length of the relator they come from: a non-emptiness fact about `rel` covers every w of
+        # relator_permutations(rel)
+        src = iter_source(b, a[0], g)
+        srcs = [strip(y[2][0]) for y in subterms(norm(src, g))] if False else []
+        if isinstance(src, tuple):
+            srcs = [strip(y[2][0]) for y in subterms(norm(src, g)) if is_call(y, "free_words::relator_permutations")]
+        for rel_t in srcs:
+            lr = ("call", "fpgroups::free_words::FreeWord::len", (rel_t,))
+            fa += [("rel", x[1], ln if strip(x[2]) == lr else x[2], ln if strip(x[3]) == lr else x[3]) for x in fa if x[0] == "rel" and lr in (strip(x[2]), strip(x[3]))]
         ok = any(x[0] == "rel" and (implies(x, ("rel", "Lt", a[1], ln)) or (a[1] == ("int", 0) and (implies(x, ("rel", "Ne", ln, ("int", 0))) or implies(x, ("rel", "Lt", ("int", 0), ln))))) for x in fa) or \
             any(x[0] == "bool" and x[2] is False and is_call(x[1], "is_empty") for x in fa)
         if not ok:
